@@ -221,6 +221,43 @@ func checkC11(c *Check) {
 					}
 				}
 			}
+			if !guarded {
+				// an error constructor: a function taking the write error,
+				// called only on the non-nil edge of that very write
+				var eprm *ssa.Parameter
+				eidx := -1
+				for i, q := range fn.Params {
+					if typeName(q.Type()) == "error" {
+						eprm, eidx = q, i
+					}
+				}
+				sites := staticCallers(p, fn)
+				if eprm != nil && len(sites) > 0 {
+					all := true
+					for _, site := range sites {
+						okSite := false
+						if eidx < len(site.Common().Args) {
+							if wc, ok := strip(site.Common().Args[eidx]).(*ssa.Call); ok && isCalleeObj(wc.Common(), wobj) {
+								for _, g := range GuardsOf(site) {
+									a := atomsOf(g)
+									if b, ok := a.V.(*ssa.BinOp); ok && (b.X == ssa.Value(wc) || b.Y == ssa.Value(wc)) {
+										if (b.Op == token.NEQ && a.Pos) || (b.Op == token.EQL && !a.Pos) {
+											okSite = true
+										}
+									}
+								}
+							}
+						}
+						if !okSite {
+							all = false
+						}
+					}
+					if all {
+						c.OK("error-only-on-write-failure", name, p.InstrPos(ret), fmt.Sprintf("error constructor called at %d site(s), each on the non-nil edge of the EventWriter.Write whose error it wraps", len(sites)))
+						return
+					}
+				}
+			}
 			c.Cond(guarded, "error-only-on-write-failure", name, p.InstrPos(ret), "returned only on the non-nil edge of EventWriter.Write", "a non-nil error can be returned although no event write failed: a malformed or unrecognised line would stop the sshd pipeline")
 		})
 	}
